@@ -128,6 +128,8 @@ func runCaseWS(roots []*fnode, gmp int, batchSpins [nBatch]int, events, which in
 	rs.syncMode = true
 	syncResp := serve(rs, query)
 
+	altResp, hasAlt := altReference(roots, b, query, syncResp)
+
 	prev := setGMP(gmp)
 	defer setGMP(prev)
 
@@ -206,7 +208,7 @@ func runCaseWS(roots []*fnode, gmp int, batchSpins [nBatch]int, events, which in
 		if e == which {
 			asyncResp = resp
 		}
-		if resp != syncResp && differing == "" {
+		if resp != syncResp && !(hasAlt && resp == altResp) && differing == "" {
 			differing = resp
 		}
 	}
@@ -244,6 +246,7 @@ func runCaseWS(roots []*fnode, gmp int, batchSpins [nBatch]int, events, which in
 		sexp.T("trace", sexp.L(tr...)),
 		sexp.T("delivered", sexp.L(r.deliveries...)),
 		sexp.T("resp", sexp.Str(asyncResp), sexp.Str(syncResp)),
+		sexp.T("respalt", altNode(altResp, hasAlt)...),
 		sexp.T("leak", sexp.Int(leak)),
 		sexp.T("hang", sexp.Bool(hang)),
 		sexp.T("problems", sexp.L(probs...)))
